@@ -322,6 +322,14 @@ def rw_for_ref_pattern(text):
         e = m.group(2).lstrip("&")
         tag = re.sub(r"\W", "", m.group(1).split(",")[0])
         return "for __i_%s in 0..%s.len() { let (%s) = %s[__i_%s];" % (tag, e, m.group(1), e, tag)
+    pat6 = re.compile(r"for\s+(\w+)\s+in\s+&([\w\.]+)\s*\{")
+
+    def r6(m):
+        nonlocal cnt
+        cnt += 1
+        x, e = m.group(1), m.group(2)
+        return "for __i_%s in 0..%s.len() { let %s = &%s[__i_%s];" % (x, e, x, e, x)
+    text = pat6.sub(r6, text)
     text = pat5.sub(r5, text)
     text = pat4.sub(r4, text)
     text = pat1.sub(r1, text)
